@@ -47,8 +47,8 @@ pub fn garbage_byte() -> BoxedStrategy<u8> {
     prop_oneof![
         6 => prop::sample::select(b"}],:.eE+aruls".to_vec()),
         2 => any::<u8>(),
-        1 => (0x80u8..=0xff),
-        1 => (0u8..0x20),
+        1 => 0x80u8..=0xff,
+        1 => 0u8..0x20,
     ]
     .prop_filter("not whitespace, not a value start", |b| !matches!(*b, b' ' | b'\t' | b'\n' | b'\r' | b'n' | b't' | b'f' | b'"' | b'-' | b'[' | b'{' | b'0'..=b'9'))
     .boxed()
